@@ -23,7 +23,7 @@ ASSUMPTIONS = ['the transaction window ends when the server has received the clo
 
 def base(op, key, nbytes, **kw):
     scn = {'kernel': kw.get('kernel', {'read_cost_ns': 1000, 'lmax_ns': 20_000}), 'latency': kw.get('latency', {'kind': 'const', 'ns': 200_000}),
-           'server_key': key, 'client_key': key, 'seeds': [kw.get('seed16', 0xA55A)], 'c_max_cmdt': kw.get('cm', 1), 's_max_cmdt': kw.get('cm', 1),
+           'server_key': key, 'client_key': key, 'seeds': kw.get('seeds', [0xA55A, 0x1234, 0x0F0F, 0x8001]), 'c_max_cmdt': kw.get('cm', 1), 's_max_cmdt': kw.get('cm', 1),
            'op': op, 'nbytes': nbytes, 'address': kw.get('address', 0x92000003), 'fill': kw.get('fill', 21), 'intrude': None}
     return scn
 
@@ -58,7 +58,7 @@ def generate(rng, tier, i):
     op = rng.choice(['read', 'write'])
     key = rng.choice([None, 'xor', 'add'])
     n = rng.choice([1, 4, 7, 8, 9, 20, 60, 200])
-    scn = base(op, key, n, kernel=gen.draw_kernel(rng), latency=gen.draw_latency(rng, False, ['C', 'S']), seed16=rng.randrange(1, 0xFFFF),
+    scn = base(op, key, n, kernel=gen.draw_kernel(rng), latency=gen.draw_latency(rng, False, ['C', 'S']), seeds=[rng.randrange(1, 0xFFFF) for _ in range(4)],
                cm=rng.choice([1, 3, 255]), address=rng.getrandbits(32), fill=rng.randrange(1 << 16))
     scn['seed'] = rng.randrange(1 << 32)
     scn['c_addr'] = rng.choice([0xF9, 0xF9, 0x00, 0x01, 253, rng.choice([a for a in range(254) if a not in (S_ADDR, I_ADDR)])])
